@@ -87,6 +87,10 @@ def judge(pre, op, post, res, obs, meta):
                 anc = [rr.split("/")[:i] for i in range(1, rr.count("/") + 1)]
                 if any(ref.ignored(eff, "/".join(a), True) for a in anc):
                     V("create-touched-excluded-folder", f"{ops.label(op)}: {rel} {w} although a folder above it is excluded by {eff}", what=w)
+        for p in sorted(created_ascmhl):
+            # a run at R creates the history of R when there is none; it never founds a history anywhere else
+            if p != ("root/" + R + "/ascmhl" if R else "root/ascmhl"):
+                V("create-founded-another-history", f"{ops.label(op)}: a new history folder {p[5:]} appeared (the command's root is '{R or '.'}')")
         for p, w in diffs:
             if not (p == "root" or p.startswith("root/")):
                 V("create-outside-root", f"{ops.label(op)}: {p} {w}", what=w)
@@ -196,6 +200,10 @@ def states(ctx):
     left["d/ascmhl/ascmhl_chain.xml.tmp"] = b""
     left["d/ascmhl/notes.txt"] = b"a note somebody left here"
     S["nested-with-leftovers"] = left
+    # folders whose name is a case variant of the tool's own folder name are ordinary media folders (on this file system)
+    cv = dict(flat)
+    cv.update({"d/ASCMHL": DIR, "d/e/Ascmhl": DIR, "d/e/Ascmhl/notes.txt": b"not a history", "AscMhl": DIR})
+    S["case-variant-folders"] = cv
     # a nested history inside a folder that the enclosing history excludes (pattern recorded in its latest generation), plus a
     # file that is new: nothing below the excluded folder may be touched by any form of create
     ign = ops.build(ctx, T, [c("d", ["md5"]), c("", ["xxh64"], i=["d/"])], expect=[0, 0])
